@@ -1106,6 +1106,20 @@ def _run_pixels(case, ck):
                 ck.true("pixels-size", sub.size == k * c.nch,
                         "subset has %d values, expected %d (%s)" %
                         (sub.size, k * c.nch, what))
+                if k >= 2:
+                    # the same option on data that are a subset already:
+                    # the first k - 1 of its locations
+                    script.answer = list(range(k - 1))
+                    a2 = float(c.model.lnposterior(pars, sub, pixels=k - 1))
+                    sub2 = make_subset_data(sub, pixels=k - 1)
+                    b2 = float(c.model.lnposterior(pars, sub2))
+                    script.answer = list(sel)
+                    ck.trans += 3
+                    ck.true("pixels-path-on-subset", ulp_diff(a2, b2) == 0 and
+                            a2 == a2 and sub2.size == (k - 1) * c.nch,
+                            "lnposterior(subset of %d, pixels=%d) = %r, on "
+                            "make_subset_data of that subset (%d values) %r "
+                            "(%s)" % (k, k - 1, a2, sub2.size, b2, what))
                 # independent value: prior + Gaussian density on the subset
                 Fh = harness_forward(c, vals, sub)
                 ll, scale = gauss_loglike(Fh, sub, nexp[1])
